@@ -563,6 +563,27 @@ pub fn family_shape(_tier: Tier) -> Vec<PProblem> {
             out.push(p);
         }
     }
+    // further objective types: arrival time, soft tour order, as many tours as possible
+    for (name, objectives) in [
+        ("arrival-time", json!([{"type": "minimize-unassigned"}, {"type": "minimize-arrival-time"}, {"type": "minimize-cost"}])),
+        ("tour-order-soft", json!([{"type": "minimize-unassigned"}, {"type": "tour-order"}, {"type": "minimize-cost"}])),
+        ("maximize-tours", json!([{"type": "minimize-unassigned"}, {"type": "maximize-tours"}, {"type": "minimize-cost"}])),
+        ("unassigned-break-weight", json!([{"type": "minimize-unassigned", "breaks": 3.0}, {"type": "minimize-tours"}, {"type": "minimize-cost"}])),
+    ] {
+        let mut jobs: Vec<PJob> = (0..5).map(|i| job(&format!("j{i}"), vec![task(Delivery, vec![place(1 + i % 4, 1., &[], None)], &[1])])).collect();
+        if name == "tour-order-soft" {
+            for (i, j) in jobs.iter_mut().enumerate() {
+                j.tasks[0].order = Some(5 - i as i64);
+            }
+        }
+        let mut s = shift(ShiftKind::StartLatest);
+        if name == "unassigned-break-weight" {
+            s.breaks = vec![PBreak { time: (20., 60.), duration: 5., loc: None, tag: Some("lunch".into()), offset: false, policy: None }];
+        }
+        let mut p = base(format!("shape/{name}"), jobs, vec![vehicle_type("v", 2, &[3], vec![s])]);
+        p.objectives = Some(objectives);
+        out.push(p);
+    }
     for obj in ["balance-max-load", "balance-activities", "balance-distance", "balance-duration"] {
         let jobs: Vec<PJob> = (0..5).map(|i| job(&format!("j{i}"), vec![task(Delivery, vec![place(1 + i % 4, 1., &[], None)], &[1])])).collect();
         let mut p = base(format!("shape/{obj}"), jobs, vec![vehicle_type("v", 2, &[4], vec![shift(ShiftKind::Closed)])]);
